@@ -9,8 +9,10 @@
 (* entries), each with the VM depths at that moment (frames, value-stack   *)
 (* length, pending exception).  What the VM does between two events is not *)
 (* recorded; the spec lets it progress arbitrarily INSIDE the innermost    *)
-(* open entry (frames and stack may only grow above that entry's base) and *)
-(* holds it to HostVm's design at the boundaries:                          *)
+(* open entry (the frame stack may only grow above that entry's base; the  *)
+(* value-stack length of a nested enter is taken as found, because a       *)
+(* running generator has swapped in its private stack) and holds it to     *)
+(* HostVm's design at the boundaries:                                      *)
 (*   - entries nest (an exit closes the innermost open entry, same kind),  *)
 (*   - a host entry ends as return, throw or limit - nothing else (C02),   *)
 (*   - HostExit leaves exactly the depths found on entry (EntryRestores),  *)
@@ -41,7 +43,7 @@ EnterWhy ==
   ELSE IF Ev.n # Len(rust) THEN "nesting"
   ELSE IF Ev.p THEN "pending-at-enter"
   ELSE IF InHost /\ ~(Ev.f = Len(frames) /\ Ev.s = stackLen) THEN "host-state-changed"
-  ELSE IF ~InHost /\ ~(Ev.f >= TopAct.bf /\ Ev.s >= TopAct.bs) THEN "below-entry-base"
+  ELSE IF ~InHost /\ ~(Ev.f >= TopAct.bf) THEN "below-entry-base"
   ELSE "ok"
 
 TrEnter ==
@@ -100,7 +102,7 @@ Nesting ==
   /\ \A k \in 1..Len(rust) : rust[k].t = "entry" /\ rust[k].kind \in EntryKinds
   /\ \A k \in 1..Len(rust) : rust[k].bf <= Len(frames)
   /\ \A k \in 1..(Len(rust) - 1) : rust[k].bf <= rust[k + 1].bf
-  /\ (rust # <<>>) => (TopAct.bs <= stackLen /\ rust[1].bf = 1 /\ rust[1].bs = 0)
+  /\ (rust # <<>>) => (rust[1].bf = 1 /\ rust[1].bs = 0)
 
 TraceEntryRestores == [][(l <= Len(Rec) /\ Ev.e # "reset") => EntryRestoresStep]_tvars
 
